@@ -10,6 +10,9 @@ import MimicProps.C02
 #print axioms MimicProps.C02.native_send_uses_issued_nonce
 #print axioms MimicProps.C02.native_reuses_handshake_nonce
 #print axioms MimicProps.C02.clear_accepts_iff_check
+#print axioms MimicProps.C02.clear_password_decoding_is_code
+#print axioms MimicProps.C02.clear_password_unterminated
+#print axioms MimicProps.C02.clear_password_terminated
 #print axioms MimicProps.C02.nologin_never_accepts
 #print axioms MimicProps.C02.session_user_is_vouched
 #print axioms MimicProps.C02.xor_is_code
